@@ -212,7 +212,23 @@ class SNum(Sym):
         current().require_nonzero(r[1])
         return SInt(z3.simplify(py_mod(r[0], r[1])))
 
+    def __round__(self, ndigits=None):
+        """round(x): an integer n with |n - x| <= 1/2 (explicit witness; ties are left open, which covers round-half-even and
+        round-half-away alike)"""
+        if ndigits is not None:
+            raise Unsupported("round(x, ndigits) of a symbolic value")
+        if isinstance(self, SInt):
+            return self
+        n = z3.Int(fresh_name("rnd"))
+        r = z3.ToReal(n)
+        ex = current()
+        ex.assume(z3.And(r - self.t <= z3.RealVal("1/2"), self.t - r <= z3.RealVal("1/2")))
+        ex.path.ghost.setdefault("round_witness", []).append((self.t, n))
+        return SInt(n)
+
     def __pow__(self, o):
+        if isinstance(o, float) and o == int(o):
+            o = int(o)
         if isinstance(o, int) and 0 <= o <= 6:
             r = 1
             for _ in range(o):
